@@ -34,6 +34,17 @@ type c12Run struct {
 	low   []bool    // step t is below the volume threshold: flush permitted
 	s0    float64
 	sT    float64
+	mag   float64 // Σ of the magnitudes of the individual sink terms (a step's terms may cancel: remobilised mass leaving downstream)
+}
+
+// sinks sets the mass leaving the in-stream store on step t as the sum of its individual terms.
+func (b *c12Run) sinks(t int, terms ...float64) {
+	v := 0.0
+	for _, x := range terms {
+		v += x
+		b.mag += math.Abs(x)
+	}
+	b.sink[t] = v
 }
 
 func (b *c12Run) scale() float64 {
@@ -42,7 +53,7 @@ func (b *c12Run) scale() float64 {
 		si += math.Abs(b.in[t])
 		so += math.Abs(b.sink[t])
 	}
-	return math.Max(math.Max(math.Abs(b.s0), math.Abs(b.sT)), math.Max(si, so))
+	return math.Max(math.Max(math.Abs(b.s0), math.Abs(b.sT)), math.Max(si, math.Max(so, b.mag)))
 }
 
 // check runs the reconstruction; returns the number of flush steps.
@@ -191,7 +202,7 @@ func init() {
 			s0: c12Init(k, 1)[0], sT: r.S[0]}
 		for t := 0; t < T; t++ {
 			b.in[t] = k.In[0][t]*dt + k.In[1][t]*dt
-			b.sink[t] = r.Out[1][t]*dt + r.Out[0][t]*dt
+			b.sinks(t, r.Out[1][t]*dt, r.Out[0][t]*dt)
 			b.low[t] = k.In[3][t]*dt+k.In[4][t] < minimumVolumeC12
 			if !(hl > 0) && r.Out[0][t] != 0 {
 				c.OracleFail(id, k.Model, fmt.Sprintf("decay disabled (halfLife %v) but decayedLoad[%d] = %v", hl, t, r.Out[0][t]), body)
@@ -260,7 +271,7 @@ func init() {
 		b := &c12Run{model: k.Model, in: in, sink: make([]float64, T), low: make([]bool, T), s0: s[1], sT: r.S[1]}
 		depScale := math.Abs(cs0)
 		for t := 0; t < T; t++ {
-			b.sink[t] = r.Out[0][t]*dt + r.Out[1][t]*dt + r.Out[2][t]
+			b.sinks(t, r.Out[0][t]*dt, r.Out[1][t]*dt, r.Out[2][t])
 			b.low[t] = vol[t]+flow[t]*dt <= 0
 			depScale = math.Max(depScale, math.Abs(r.Out[2][t]))
 		}
@@ -324,7 +335,7 @@ func init() {
 		sumDep, depScale := 0.0, math.Max(math.Abs(s[1]), math.Abs(r.S[1]))
 		for t := 0; t < T; t++ {
 			b.in[t] = up[t]*dt + lat[t]*dt + fromBank[t]*dt
-			b.sink[t] = down[t]*dt + fp[t]*dt + dep[t]
+			b.sinks(t, down[t]*dt, fp[t]*dt, dep[t])
 			b.low[t] = flow[t]*dt+vol[t] < minimumVolumeC12
 			sumDep += dep[t]
 			depScale = math.Max(depScale, math.Abs(dep[t]))
@@ -359,7 +370,7 @@ func init() {
 			s0: c12Init(k, 1)[0], sT: r.S[0]}
 		for t := 0; t < T; t++ {
 			b.in[t] = k.In[0][t] * dt
-			b.sink[t] = r.Out[0][t] + r.Out[1][t]*dt
+			b.sinks(t, r.Out[0][t], r.Out[1][t]*dt)
 			if r.Out[0][t] > b.in[t]*(1+c12Rtol) {
 				c.OracleFail(id, k.Model, fmt.Sprintf("step %d traps %.17g of an incoming %.17g", t, r.Out[0][t], b.in[t]), body)
 				break
